@@ -80,7 +80,7 @@ def run_case(case, ses):
 def run_model(spec, ses):
     z3 = z3mod()
     name = spec['name']
-    tower = spec['atom'] in TOWER_ATOMS or spec.get('base') == 'power3'
+    tower = spec['atom'] in TOWER_ATOMS or spec.get('base') in ('power3', 'gmean')
     with quiet():
         cm = Compiled(detgen.desc_from_spec(spec), abstract_towers=tower, front=spec.get('front', 'ro'))
     ses.stats.programs += 1
